@@ -13,10 +13,15 @@ def rulesFor (dst : Nat → List Nat) (hist : List (List Rule)) (t : Nat) : List
 /-- a rule accepts a node iff gogrep calls back with an accepted match -/
 def accepts (cb : Rule → List Bool) (r : Rule) : Bool := (cb r).any id
 
+/-- the reports a rule delivers for a node: one per accepted sub-match (a list pattern can match several
+sub-slices of one statement / argument list) -/
+def reportsOf (cb : Rule → List Bool) (r : Rule) : List Nat := ((cb r).filter id).map (fun _ => r.id)
+
+/-- per node: the reports of the first accepting rule (of every accepting rule for multi-match tags) -/
 def pick (multi : Bool) (cb : Rule → List Bool) (rules : List Rule) : List Nat :=
-  if multi then (rules.filter (accepts cb)).map (·.id)
+  if multi then (rules.filter (accepts cb)).flatMap (reportsOf cb)
   else match rules.find? (accepts cb) with
-    | some r => [r.id]
+    | some r => reportsOf cb r
     | none => []
 
 /-- the property's right-hand side over the visits of a file -/
